@@ -67,6 +67,7 @@ func main() {
 	out := flag.String("out", "cases.txt", "output file for wire lines")
 	meta := flag.String("meta", "meta.json", "output file for distribution and samples")
 	par := flag.Int("par", 16, "parallelism")
+	limit := flag.Int("limit", -1, "run only the first n case indices")
 	flag.Parse()
 
 	p, ok := registry[*prop]
@@ -75,6 +76,9 @@ func main() {
 		os.Exit(2)
 	}
 	n := p.N(*tier)
+	if *limit >= 0 && *limit < n {
+		n = *limit
+	}
 	idxs := []int{}
 	if *only >= 0 {
 		idxs = append(idxs, *only)
